@@ -9,17 +9,17 @@ namespace ExprModel
 open Table
 
 /-- a field of the struct that does not touch the entry of `name` -/
-def NoEvent (d : Defects) (R : Ty → String → Option Tag) (name : String) (f : Field) : Prop :=
+def NoEvent (d : NDefects) (R : Ty → String → Option Tag) (name : String) (f : Field) : Prop :=
   (f.anon = true → R f.ty name = none) ∧ ¬ (accepts d f = true ∧ f.name = name)
 
-theorem loopAt_cons (d : Defects) (R : Ty → String → Option Tag) (name : String) (f : Field)
+theorem loopAt_cons (d : NDefects) (R : Ty → String → Option Tag) (name : String) (f : Field)
     (fs : List Field) (cur : Option Tag) :
     loopAt d R name (f :: fs) cur =
       loopAt d R name fs
         (if (d.unexportedAccepted || f.exported) && f.name = name then some { ty := some f.ty }
          else if f.anon then mergeAt cur (R f.ty name) else cur) := rfl
 
-theorem loopAt_none (d : Defects) (R : Ty → String → Option Tag) (name : String) :
+theorem loopAt_none (d : NDefects) (R : Ty → String → Option Tag) (name : String) :
     ∀ (fs : List Field) (cur : Option Tag), loopAt d R name fs cur = none →
       cur = none ∧ ∀ f ∈ fs, NoEvent d R name f := by
   intro fs cur h
@@ -41,7 +41,7 @@ theorem loopAt_none (d : Defects) (R : Ty → String → Option Tag) (name : Str
       have := loopAt_some_of_own d R name fs cur f hf ha hn
       rw [h] at this; cases this
 
-theorem step_noEvent {d : Defects} {R : Ty → String → Option Tag} {name : String} {f : Field}
+theorem step_noEvent {d : NDefects} {R : Ty → String → Option Tag} {name : String} {f : Field}
     (h : NoEvent d R name f) (cur : Option Tag) :
     (if (d.unexportedAccepted || f.exported) && f.name = name then some { ty := some f.ty }
      else if f.anon then mergeAt cur (R f.ty name) else cur) = cur := by
@@ -55,7 +55,7 @@ theorem step_noEvent {d : Defects} {R : Ty → String → Option Tag} {name : St
   · rw [if_neg ha]
 
 /-- how a non-ambiguous entry can have come about -/
-theorem loopAt_classify (d : Defects) (R : Ty → String → Option Tag) (name : String) :
+theorem loopAt_classify (d : NDefects) (R : Ty → String → Option Tag) (name : String) :
     ∀ (fs : List Field) (cur : Option Tag) (g : Tag),
       loopAt d R name fs cur = some g → g.ambiguous = false →
       (cur = some g ∧ ∀ f ∈ fs, NoEvent d R name f) ∨
@@ -190,24 +190,24 @@ theorem filter_name_eq_singleton (name : String) :
 
 /-- every field called `name`, at any depth, is one the checker variant accepts (true for every name
 under `unexportedAccepted`; otherwise: the name is an exported one) -/
-def AllAccepted (d : Defects) (t : Ty) (name : String) : Prop :=
+def AllAccepted (d : NDefects) (t : Ty) (name : String) : Prop :=
   ∀ k, ∀ f ∈ levelFields k t, f.name = name → accepts d f = true
 
-theorem AllAccepted.sub {d : Defects} {t : Ty} {name : String} (h : AllAccepted d t name) {e : Field}
+theorem AllAccepted.sub {d : NDefects} {t : Ty} {name : String} (h : AllAccepted d t name) {e : Field}
     (he : e ∈ t.embedded) : AllAccepted d (embTarget e) name := by
   intro k f hf hn
   apply h (k + 1) f _ hn
   rw [levelFields_succ]
   exact List.mem_flatMap.2 ⟨e, he, hf⟩
 
-theorem rawAt_emb (d : Defects) (fuel : Nat) {t : Ty} (hwf : EmbWF t) {e : Field} (he : e ∈ t.embedded)
+theorem rawAt_emb (d : NDefects) (fuel : Nat) {t : Ty} (hwf : EmbWF t) {e : Field} (he : e ∈ t.embedded)
     (name : String) : rawAt d fuel e.ty name = rawAt d fuel (embTarget e) name := by
   have hpe := hwf.here he
   apply rawAt_congr
   rw [deref_eq_embTarget hpe, Ty.deref_of_not_isPtr hpe]
 
 /-- no entry ⇒ the name does not occur at any depth -/
-theorem rawAt_none_no_occ (d : Defects) (name : String) :
+theorem rawAt_none_no_occ (d : NDefects) (name : String) :
     ∀ (fuel : Nat) (t : Ty), t.depth ≤ fuel → EmbWF t → t.isPtr = false → AllAccepted d t name →
       rawAt d fuel t name = none → ∀ j, occAt j t name = []
   | 0, t, hd, _, _, _, _ => absurd hd (Nat.not_le.2 (Ty.depth_pos t))
@@ -242,7 +242,7 @@ theorem flatMap_single {α β : Type} (F : α → List β) (pre post : List α) 
   rw [h1, h2]; simp
 
 /-- **Soundness of the merge loop's non-ambiguous entries.** -/
-theorem rawAt_sound (d : Defects) (name : String) :
+theorem rawAt_sound (d : NDefects) (name : String) :
     ∀ (fuel : Nat) (t : Ty) (g : Tag), t.depth ≤ fuel → EmbWF t → NamesWF t → t.isPtr = false →
       AllAccepted d t name → rawAt d fuel t name = some g → g.ambiguous = false →
       ∃ k f, (∀ j, j < k → occAt j t name = []) ∧ occAt k t name = [f] ∧ g = { ty := some f.ty }
@@ -305,7 +305,7 @@ theorem rawAt_sound (d : Defects) (name : String) :
       | succ j => rw [hsucc]; exact h0 j (by omega)
 
 /-- in terms of `reflect`: the recorded type is the type of the field `FieldByName` finds -/
-theorem rawAt_sound_reflField (d : Defects) (name : String) (t : Ty) (g : Tag) (hwf : EmbWF t)
+theorem rawAt_sound_reflField (d : NDefects) (name : String) (t : Ty) (g : Tag) (hwf : EmbWF t)
     (hnames : NamesWF t) (hp : t.isPtr = false) (hall : AllAccepted d t name)
     (h : rawAt d (t.depth + 1) t name = some g) (ha : g.ambiguous = false) :
     ∃ f, reflField t name = .found f ∧ g = { ty := some f.ty } := by
